@@ -97,6 +97,34 @@ def probe_variants(cases, every=2):
     return out
 
 
+def wreset_variants(cases, every=3):
+    """Re-entrancy with a net effect: with the header `cbwreset w` the driver's clear callback resets weak pointer w
+    (an object that keeps a weak reference - typically to its own allocation - and drops it when destroyed).  The Coq
+    model's callback is a logger, so these replays are outside the model (the runner answers `precond`); they are judged
+    by the reference oracle and the sanitizers only."""
+    out = []
+    n = 0
+    for c in cases:
+        kinds = []
+        for h in c.header:
+            w = h.split()
+            if w[0] == 'pool':
+                kinds = w[1:]
+            if w[0] in ('cbprobe', 'cbwreset', 'constapi'):
+                kinds = []
+        ws = [i for i, k in enumerate(kinds) if k == 'W']
+        if not ws or any(o.split()[0] == 'straycopy' for o in c.ops):
+            continue
+        froms = [int(o.split()[1]) for o in c.ops if o.split()[0] == 'wfrom' and o.split()[1].isdigit() and int(o.split()[1]) in ws]
+        if not froms:
+            continue
+        n += 1
+        if n % every:
+            continue
+        out.append(Case(c.name + 'w', c.header + ['cbwreset %d' % froms[n // every % len(froms)]], c.ops, c.origin))
+    return out
+
+
 class C05(MemSpec):
     pid = 'C05'
     rule = ('cases = corpus + one case per edge of the breadth-first closure of the Coq model (scopes: 3 shared + 2 weak '
@@ -121,14 +149,19 @@ class C05(MemSpec):
         st['cbprobe_replays'] = len(pv)
         kv = memref.const_variants(cases, every=2)
         st['constapi_replays'] = len(kv)
-        return cases + pv + kv, st
+        wv = wreset_variants(cases, every=3)
+        st['cbwreset_replays'] = len(wv)
+        return cases + pv + kv + wv, st
+
+    def oracle_only(self, c):
+        return any(h.split()[0] == 'cbwreset' for h in c.header)
 
     def random_cases(self, tier, seed):
         rnd = random.Random(seed * 7919 + 5)
         n = 400 if tier == 'quick' else 6000
         kinds = ['U', 'U', 'S', 'S', 'S', 'S', 'W', 'W', 'W']
         cases = [memref.gen_case(rnd, 'rnd%d' % i, kinds, [], rnd.choice([8, 20, 40, 80]), W_PTR) for i in range(n)]
-        return cases + probe_variants(cases, every=2) + memref.const_variants(cases, every=2)
+        return cases + probe_variants(cases, every=2) + memref.const_variants(cases, every=2) + wreset_variants(cases, every=3)
 
 
 SPEC = C05()
